@@ -21,8 +21,13 @@ HERE = os.path.dirname(os.path.dirname(os.path.abspath(__file__)))
 
 def load():
     rows = []
-    with open(os.path.join(HERE, 'mutants', 'mutants.tsv')) as f:
-        for line in f:
+    import glob
+    lines = []
+    for path in sorted(glob.glob(os.path.join(HERE, 'mutants', '*.tsv'))):
+        with open(path) as f:
+            lines.extend(f.readlines())
+    if True:
+        for line in lines:
             line = line.rstrip('\n')
             if not line.strip() or line.startswith('#'):
                 continue
